@@ -44,6 +44,12 @@ func runOracle(oracle string, c *Case, lean *LeanDriver) Verdict {
 		if c.Query == "kernel:coalesce" {
 			return coalesceKernel(c, lean)
 		}
+		if c.Query == "kernel:pull" {
+			return pullKernel(c, lean)
+		}
+		if c.Query == "kernel:remote" {
+			return remoteKernel(c, lean)
+		}
 		return kernelCase(c, lean)
 	}
 	return Verdict{ID: c.ID, Query: c.Query, Oracle: oracle, Skipped: "unknown oracle"}
